@@ -193,8 +193,30 @@ static void hierarchy_case(const char *cname, const char *rname, std::shared_ptr
         int v = (step == rebuild_steps - 1) ? 0 : g.range(0, 3);
         hist.push_back(v);
         auto M = version(v);
+        // (a) a rebuild that fails or produces garbage in between (all-zero values: the direct coarse solver / ilu0 throw,
+        //     other smoothers divide by zero), caught by the caller: the next rebuild must still renew every level
+        bool after_bad = false, bad_threw = false;
+        if (g.coin(0.3)) {
+            after_bad = true;
+            auto Z = std::make_shared<crsd>(*A);
+            bool allzero = g.coin();
+            for (size_t i = 0; i < Z->nrows; ++i) for (ptrdiff_t q = Z->ptr[i]; q < Z->ptr[i+1]; ++q) if (allzero || Z->col[q] == (ptrdiff_t)i) Z->val[q] = 0;
+            try { amg->rebuild(*Z); } catch (const std::exception &) { bad_threw = true; }
+        }
+        // (b) the new matrix handed to rebuild() with its rows not sorted by column (diagonal first / reversed):
+        //     row order is not part of the matrix, the copying overload sorts its own copy like the constructor does
+        bool unsorted = g.coin();
+        auto Min = M;
+        if (unsorted) {
+            Min = std::make_shared<crsd>(*M); bool rev = g.coin();
+            for (size_t i = 0; i < Min->nrows; ++i) { ptrdiff_t b = Min->ptr[i], e = Min->ptr[i+1];
+                if (rev) { std::reverse(Min->col + b, Min->col + e); std::reverse(Min->val + b, Min->val + e); }
+                else for (ptrdiff_t q = b; q < e; ++q) if (Min->col[q] == (ptrdiff_t)i) { for (ptrdiff_t t = q; t > b; --t) { std::swap(Min->col[t], Min->col[t-1]); std::swap(Min->val[t], Min->val[t-1]); } break; } }
+        }
+        vr::digest min0; min0.vec(Min->col, Min->nnz); min0.vec(Min->val, Min->nnz);
         g_seen.clear();
-        amg->rebuild(*M);
+        amg->rebuild(*Min);
+        vr::digest min1; min1.vec(Min->col, Min->nnz); min1.vec(Min->val, Min->nnz);
         std::vector<seen> re = g_seen;
         // Galerkin again on every level, now with the new matrix (what rebuild handed down)
         for (size_t k = 0; k < re.size(); ++k) emit_level(cname, k, re[k], is_aggr, adjoint, is_aggr ? c.over_interp : 0.0, "rebuild");
@@ -209,6 +231,7 @@ static void hierarchy_case(const char *cname, const char *rname, std::shared_ptr
         bool restored = true, scaled = true; double f = v == 1 ? 0.5 : (v == 3 ? 0.25 : 1.0);
         for (size_t q = 0; q < probes.size(); ++q) for (int i = 0; i < n; ++i) { if (act[q][i] != act0[q][i]) restored = false; if (act[q][i] != f * act0[q][i]) scaled = false; }
         vr::obj o; o.str("k", "rebuild").str("coarsening", cname).str("relax", rname).i("step", step).ints("hist", hist).i("nt", omp_get_max_threads());
+        o.b("after_bad", after_bad).b("bad_threw", bad_threw).b("unsorted", unsorted).b("input_untouched", min0.h == min1.h);
         o.b("fresh", da.h == df.h).b("transfer", t0.h == t1.h).b("orig", v == 0).b("restored", restored).b("pow2", v == 0 || v == 1 || v == 3).b("scaled", scaled).i("relevels", re.size());
         vr::emit(o.done());
     }
